@@ -56,7 +56,9 @@ def holds (env : Env) (c : Cfg) (evs : List PEv) (obs : List Obs) : Bool :=
            meth == methodToString f.method && ver == lit ['H','T','T','P','/','1','.','1'] &&
            !containsByte CR target && !containsByte LF target &&
            (let (p, q) := match breakOn [63] target with | some (a, b) => (a, 63 :: b) | none => (target, [])
-            Fs.pctDecode p == 47 :: c.path && q == rawQuery f.rawPath)
+            Fs.pctDecode p == 47 :: c.path &&
+            -- the query denotes what the client sent and is free of SP, CR, LF
+            !containsByte SP q && Fs.pctDecode q == Fs.pctDecode (rawQuery f.rawPath))
          | _ => false) &&
         -- every client header with its values (the two proxy headers are checked separately)
         f.headers.all (fun e => lower e.1 == lower XFF || lower e.1 == lower XRI ||
